@@ -273,8 +273,20 @@ func (p *poller) readWriteLoop() {
 								c.ResetPollerEvent()
 							}
 						} else {
-							c.onConnected(c, nil)
+							// the non-blocking connect has finished, get its result.
+							var err error
+							soErr, e := syscall.GetsockoptInt(fd, syscall.SOL_SOCKET, syscall.SO_ERROR)
+							if e != nil {
+								err = e
+							} else if soErr != 0 {
+								err = syscall.Errno(soErr)
+							}
+							c.onConnected(c, err)
 							c.onConnected = nil
+							if err != nil {
+								_ = c.closeWithError(err)
+								continue
+							}
 							c.resetRead()
 						}
 					}
